@@ -65,13 +65,14 @@ VARIABLES
   quitq,    \* connections whose Quit request is on its way
   done,     \* DoneCh is closed
   closes,   \* number of close(DoneCh) executed
-  loopEnded \* Serve's accept loop has returned
+  loopEnded,\* Serve's accept loop has returned
+  draining  \* clients whose Close has begun (no new calls) and not finished (what is in flight still arrives)
 
-vars == <<cph, sph, synq, srole, nextid, used, call, impl, acc, apps, pipe, wrote, chan, got, lost, quitq, done, closes, loopEnded>>
+vars == <<cph, sph, synq, srole, nextid, used, call, impl, acc, apps, pipe, wrote, chan, got, lost, quitq, done, closes, loopEnded, draining>>
 sessVars == <<cph, sph, synq, srole>>
 dispVars == <<nextid, used, call, impl, acc, apps>>
 stdioVars == <<pipe, wrote, chan, got, lost>>
-quitVars == <<quitq, done, closes, loopEnded>>
+quitVars == <<quitq, done, closes, loopEnded, draining>>
 
 Init ==
   /\ cph = [c \in Conns |-> 0] /\ sph = [c \in Conns |-> 0]
@@ -81,7 +82,7 @@ Init ==
   /\ pipe = [s \in Streams |-> <<>>] /\ wrote = [s \in Streams |-> 0]
   /\ chan = [c \in Conns |-> [s \in Streams |-> <<>>]]
   /\ got = [c \in Conns |-> [s \in Streams |-> <<>>]]
-  /\ lost = {} /\ quitq = {} /\ done = FALSE /\ closes = 0 /\ loopEnded = FALSE
+  /\ lost = {} /\ quitq = {} /\ done = FALSE /\ closes = 0 /\ loopEnded = FALSE /\ draining = {}
 
 \* ---- connection set-up -------------------------------------------------------------------------
 COpen(c) == /\ cph[c] \in 0..2 /\ ~loopEnded
@@ -106,10 +107,11 @@ ServerStreamFor(c, s) ==
   IN IF srole[c][pos] = 2 THEN "out" ELSE "err"
 
 \* ---- Dispense ----------------------------------------------------------------------------------
+\* (on a client that has been closed the call fails at once)
 CallDispense(k, c, n) ==
-  /\ call[k].st = "idle" /\ cph[c] = 4 /\ n \in Names
+  /\ call[k].st = "idle" /\ cph[c] \in {4, 5} /\ n \in Names
   /\ call' = [call EXCEPT ![k] = [NoCall EXCEPT !.conn = c, !.name = n,
-                                   !.st = IF Kind[n] = "cunknown" THEN "err" ELSE "sent"]]
+                                   !.st = IF Kind[n] = "cunknown" \/ cph[c] = 5 THEN "err" ELSE "sent"]]
   /\ UNCHANGED <<sessVars, nextid, used, impl, acc, apps, stdioVars, quitVars>>
 
 \* name lookup and Plugin.Server(broker) in the handler of Dispenser.Dispense
@@ -169,12 +171,12 @@ SWrite(s) ==
 SRead(c, s) ==
   /\ sph[c] = 4 /\ pipe[s] # <<>>
   /\ pipe' = [pipe EXCEPT ![s] = Tail(@)]
-  /\ IF cph[c] = 5
+  /\ IF cph[c] = 5 /\ c \notin draining
        THEN lost' = lost \cup {Head(pipe[s])} /\ UNCHANGED chan
        ELSE chan' = [chan EXCEPT ![c][ServerStreamFor(c, s)] = Append(@, Head(pipe[s]))] /\ UNCHANGED lost
   /\ UNCHANGED <<sessVars, dispVars, wrote, got, quitVars>>
 CDeliver(c, s) ==
-  /\ cph[c] = 4 /\ chan[c][s] # <<>>
+  /\ (cph[c] = 4 \/ c \in draining) /\ chan[c][s] # <<>>
   /\ got' = [got EXCEPT ![c][s] = Append(@, Head(chan[c][s]))]
   /\ chan' = [chan EXCEPT ![c][s] = Tail(@)]
   /\ UNCHANGED <<sessVars, dispVars, pipe, wrote, lost, quitVars>>
@@ -182,23 +184,29 @@ CDeliver(c, s) ==
 \* ---- the end -----------------------------------------------------------------------------------
 Done == IF NoNilCheck \/ ~done THEN done' = TRUE /\ closes' = closes + 1
                                ELSE UNCHANGED <<done, closes>>
+\* RPCClient.Close: asks the server to quit, then closes its streams and the session
 CClose(c) ==
   /\ cph[c] = 4
   /\ cph' = [cph EXCEPT ![c] = 5]
+  /\ draining' = draining \cup {c}
   /\ quitq' = IF sph[c] = 4 THEN quitq \cup {c} ELSE quitq
+  /\ UNCHANGED <<sph, synq, srole, dispVars, stdioVars, done, closes, loopEnded>>
+\* Close returns: whatever was still on its way to this host is gone
+CCloseEnd(c) ==
+  /\ c \in draining /\ draining' = draining \ {c}
   /\ chan' = [chan EXCEPT ![c] = [s \in Streams |-> <<>>]]
   /\ lost' = lost \cup UNION {{chan[c][s][i] : i \in 1..Len(chan[c][s])} : s \in Streams}
-  /\ UNCHANGED <<sph, synq, srole, dispVars, pipe, wrote, got, done, closes, loopEnded>>
+  /\ UNCHANGED <<sessVars, dispVars, pipe, wrote, got, quitq, done, closes, loopEnded>>
 SQuit(c) ==
   /\ c \in quitq /\ quitq' = quitq \ {c} /\ Done
-  /\ UNCHANGED <<sessVars, dispVars, stdioVars, loopEnded>>
+  /\ UNCHANGED <<sessVars, dispVars, stdioVars, loopEnded, draining>>
 \* the listener is closed (by the owner once DoneCh is closed, or an accept error): Serve returns through done()
 LoopEnd ==
   /\ ~loopEnded /\ loopEnded' = TRUE /\ Done
-  /\ UNCHANGED <<sessVars, dispVars, stdioVars, quitq>>
+  /\ UNCHANGED <<sessVars, dispVars, stdioVars, quitq, draining>>
 
 Next ==
-  \/ \E c \in Conns : COpen(c) \/ CBrokerUp(c) \/ SAccept(c) \/ SServe(c) \/ SAppId(c) \/ CClose(c) \/ SQuit(c)
+  \/ \E c \in Conns : COpen(c) \/ CBrokerUp(c) \/ SAccept(c) \/ SServe(c) \/ SAppId(c) \/ CClose(c) \/ CCloseEnd(c) \/ SQuit(c)
   \/ \E k \in Calls, c \in Conns, n \in Names : CallDispense(k, c, n)
   \/ \E k \in Calls : SCreate(k) \/ SAlloc(k) \/ CDial(k) \/ CallFails(k)
   \/ \E s \in Streams : SWrite(s) \/ (\E c \in Conns : SRead(c, s) \/ CDeliver(c, s))
@@ -217,7 +225,7 @@ ResetAll ==
   /\ pipe' = [s \in Streams |-> <<>>] /\ wrote' = [s \in Streams |-> 0]
   /\ chan' = [c \in Conns |-> [s \in Streams |-> <<>>]]
   /\ got' = [c \in Conns |-> [s \in Streams |-> <<>>]]
-  /\ lost' = {} /\ quitq' = {} /\ done' = FALSE /\ closes' = 0 /\ loopEnded' = FALSE
+  /\ lost' = {} /\ quitq' = {} /\ done' = FALSE /\ closes' = 0 /\ loopEnded' = FALSE /\ draining' = {}
 
 \* ---- properties --------------------------------------------------------------------------------
 \* the positions the server gives its accepted streams are the roles the client opened them for
